@@ -8,7 +8,7 @@ def rows(r, maxn=20, keys=8):
     n = r.choice([0, 1, 2, 3, 5, 8, 13, r.rng(0, maxn)])
     if maxn > 100:
         # sizes straddling the internal vector size (128 rows) and its multiples, with enough distinct keys
-        n = r.choice([127, 128, 129, 130, 200, 257, 300, r.rng(100, 400)])
+        n = r.choice([127, 128, 129, 130, 200, 255, 256, 257, 300, 384, 512, r.rng(100, 400)])
         keys = r.choice([8, 40, 200, 1000])
     return " ".join("%d:%d" % (min(r.below(keys), r.below(keys)) if r.chance(1, 2) else r.below(keys), r.rng(0, 30)) for _ in range(n))
 
